@@ -13,6 +13,8 @@
 //! continuation on the recovered handler behaves like on the never-crashed handler in that
 //! state; thorough: second crash inside the continuation.
 
+mod dnssecfam;
+
 use std::cell::RefCell;
 use std::collections::HashMap;
 use std::future::Future;
@@ -161,10 +163,36 @@ impl Store {
             let c = j.conn();
             // a locked database is reported to the server at once instead of after 5 s of retries
             c.busy_timeout(std::time::Duration::ZERO).expect("busy timeout");
+            // keep SQLite's rollback journal in memory and do not fsync: the check never kills the
+            // process, a "stop" is what the second connection sees committed (saves two file
+            // creations and an fsync per row on tmpfs; commits stay atomic and visible as before)
+            c.execute_batch("PRAGMA journal_mode=MEMORY; PRAGMA synchronous=OFF;").expect("pragmas");
             c.execute_batch("BEGIN; DELETE FROM records;").expect("clear");
             for r in rows {
                 c.execute("INSERT INTO records (client_id, soa_serial, timestamp, record) VALUES (?1,?2,?3,?4)", rusqlite::params![r.0, r.1, r.2, r.3])
                     .expect("insert row");
+            }
+            c.execute_batch("COMMIT;").expect("commit");
+        }
+        j
+    }
+    /// As `journal_with`, with explicit rowids (None = assigned by SQLite).
+    fn journal_with_ids(&self, rows: &[(Option<i64>, JournalRow)]) -> Journal {
+        let j = Journal::from_file(&self.path).expect("open journal file");
+        {
+            let c = j.conn();
+            c.busy_timeout(std::time::Duration::ZERO).expect("busy timeout");
+            // keep SQLite's rollback journal in memory and do not fsync: the check never kills the
+            // process, a "stop" is what the second connection sees committed (saves two file
+            // creations and an fsync per row on tmpfs; commits stay atomic and visible as before)
+            c.execute_batch("PRAGMA journal_mode=MEMORY; PRAGMA synchronous=OFF;").expect("pragmas");
+            c.execute_batch("BEGIN; DELETE FROM records;").expect("clear");
+            for (id, r) in rows {
+                match id {
+                    Some(id) => c.execute("INSERT INTO records (_rowid_, client_id, soa_serial, timestamp, record) VALUES (?1,?2,?3,?4,?5)", rusqlite::params![id, r.0, r.1, r.2, r.3]),
+                    None => c.execute("INSERT INTO records (client_id, soa_serial, timestamp, record) VALUES (?1,?2,?3,?4)", rusqlite::params![r.0, r.1, r.2, r.3]),
+                }
+                .expect("insert row");
             }
             c.execute_batch("COMMIT;").expect("commit");
         }
@@ -324,7 +352,11 @@ impl Life {
 
     /// A later life: the journal file holds `rows`; the zone is recovered from it.
     fn recovered(w: &Worker, store: &Rc<Store>, rows: &[JournalRow]) -> Result<Life, String> {
-        let journal = store.journal_with(rows);
+        Life::recovered_from(w, store, store.journal_with(rows))
+    }
+
+    /// Recovery from a journal file prepared by the caller.
+    fn recovered_from(w: &Worker, store: &Rc<Store>, journal: Journal) -> Result<Life, String> {
         let mut h = Handler::new(vupd::empty_zone(), AxfrPolicy::AllowAll, true, false);
         h.set_tsig_signers(vec![w.signer.clone()]);
         let res = catch(|| w.rt.block_on(h.recover_with_journal(&journal))).map_err(|p| format!("panic:{}", p.msg))?;
@@ -621,6 +653,8 @@ struct Plan<'a> {
     second_crash_max_hist: Option<usize>,
     /// a third lifetime (message + stop + third recovery) after histories of at most this length
     third_life_max_hist: Option<usize>,
+    /// journal variants at every message boundary of the history (else: at its end only)
+    variants_every_boundary: bool,
 }
 
 impl Plan<'_> {
@@ -690,6 +724,218 @@ fn seqs(n: usize, max: usize) -> Vec<Vec<usize>> {
         last = next;
     }
     out
+}
+
+// ------------------------------------------------------------------------------------------
+// audit round (b): journals NOT laid out the way this hickory lays them out
+
+/// Ways of writing the SAME journal that the schema permits: recovery reads `record` in rowid
+/// order and nothing else, so each of them has to recover exactly like the original rows.
+const JOURNAL_VARIANTS: [&str; 11] = [
+    "client-ids-differ",
+    "timestamps-reversed",
+    "timestamps-all-equal",
+    "soa-serial-column=0",
+    "soa-serial-column-reversed",
+    "soa-serial-column=2^40",
+    "rowids-with-gaps",
+    "rowids-start-at-1000",
+    "records-reencoded-uncompressed-upper-case",
+    "records-reencoded-uncompressed",
+    "axfr-marker-with-another-owner-ttl-class",
+];
+
+fn reencode(bytes: &[u8], upper: bool) -> Vec<u8> {
+    let Ok(raw) = vref::wire::read_record(bytes, 0) else { return bytes.to_vec() };
+    let Ok(rdata) = ru::canonical_rdata(bytes, raw.rtype, raw.rdata_start, raw.rdata_end) else { return bytes.to_vec() };
+    let rr = Rr { name: vref::wire::lower(&raw.name), rtype: raw.rtype, class: raw.class, ttl: raw.ttl, rdata };
+    vupd::raw::encode_rr(&rr, upper)
+}
+
+fn journal_variant(rows: &[JournalRow], v: &str) -> Vec<(Option<i64>, JournalRow)> {
+    let n = rows.len();
+    rows.iter()
+        .enumerate()
+        .map(|(i, r)| {
+            let mut id = None;
+            let mut r = r.clone();
+            match v {
+                "client-ids-differ" => r.0 = [7, -1, i64::MAX][i % 3],
+                "timestamps-reversed" => r.2 = rows[n - 1 - i].2.clone(),
+                "timestamps-all-equal" => r.2 = rows[0].2.clone(),
+                "soa-serial-column=0" => r.1 = 0,
+                "soa-serial-column-reversed" => r.1 = rows[n - 1 - i].1,
+                "soa-serial-column=2^40" => r.1 = 1 << 40,
+                "rowids-with-gaps" => id = Some(1 + 3 * i as i64),
+                "rowids-start-at-1000" => id = Some(1000 + i as i64),
+                "records-reencoded-uncompressed-upper-case" => r.3 = reencode(&r.3, true),
+                "records-reencoded-uncompressed" => r.3 = reencode(&r.3, false),
+                "axfr-marker-with-another-owner-ttl-class" => {
+                    if vref::wire::read_record(&r.3, 0).map(|x| x.rtype == ru::T_AXFR).unwrap_or(false) {
+                        r.3 = vupd::rr_wire(&Rr::new("z.", ru::T_AXFR, ru::CLASS_ANY, 60, vec![]));
+                    }
+                }
+                _ => {}
+            }
+            (id, r)
+        })
+        .collect()
+}
+
+/// Every variant of the journal of this history, cut at every message boundary, must recover to
+/// the state the original rows recover to.
+fn run_journal_variants(w: &mut Worker, plan: &Plan, zone: usize, hist: &[usize], life: &Life, rows: &[JournalRow], only_variant: Option<&str>, l: &mut Local) {
+    let store2 = w.stores[1].clone();
+    let mut ks: Vec<usize> = life.acks.iter().map(|a| a.durable).collect();
+    ks.dedup();
+    if !plan.variants_every_boundary && only_variant.is_none() {
+        ks = vec![*ks.last().unwrap()];
+    }
+    for k in ks {
+        let base = Life::recovered(w, &store2, &rows[..k]);
+        let base_state = base.as_ref().ok().map(|b| (b.recovery.clone(), b.acks[0].snap.clone()));
+        drop(base);
+        for v in JOURNAL_VARIANTS {
+            if only_variant.map(|o| o != v).unwrap_or(false) {
+                continue;
+            }
+            l.eval();
+            let vr = journal_variant(&rows[..k], v);
+            let rec = Life::recovered_from(w, &store2, store2.journal_with_ids(&vr));
+            let got = rec.as_ref().ok().map(|b| (b.recovery.clone(), b.acks[0].snap.clone()));
+            drop(rec);
+            let same = match (&base_state, &got) {
+                (Some((br, bs)), Some((gr, gs))) => br.is_some() == gr.is_some() && br.as_ref().map(|x| x.is_ok()) == gr.as_ref().map(|x| x.is_ok()) && same_state(bs, gs),
+                (None, None) => true,
+                _ => false,
+            };
+            if same {
+                l.outcome(&format!("journal-variant-recovers-alike:{v}"));
+                if k > life.acks[0].durable {
+                    l.nontrivial(vupd::digest(&("jv", zone, hist, k, v)));
+                }
+            } else {
+                let text = |x: &Option<(Option<Result<(), String>>, Snap)>| match x {
+                    None => "panic".to_string(),
+                    Some((r, s)) => format!("{:?} -> {:?} serial {:?}", r, s.text(), s.serial()),
+                };
+                l.violation(
+                    &format!("journal-variant-recovers-differently:{v}"),
+                    &format!("the first {k} rows of the journal recover to {}; the same rows written as '{v}' recover to {}", text(&base_state), text(&got)),
+                    || {
+                        let mut j = case_json(plan, zone, hist, Some(k), &[], None);
+                        j["journal_variant"] = json!(v);
+                        j
+                    },
+                );
+            }
+        }
+    }
+}
+
+/// Audit round (c): the journal FILE at every point a stop during its creation can leave it
+/// (`schema_up`: CREATE tdns_schema; INSERT version 0; UPDATE version; CREATE records; UPDATE
+/// version = 1 - each its own commit), plus a schema version this build does not know. No update
+/// was acknowledged yet, the zone file is still authoritative: opening may refuse, it must not
+/// panic and must not serve a zone; an opened journal must work (persist + recover round trip).
+fn run_schema_states(w: &mut Worker, zone: &[Rr], l: &mut Local) {
+    let states: [(&str, &[&str]); 6] = [
+        ("empty-file", &[]),
+        ("after-create-tdns_schema(no-version-row)", &["CREATE TABLE tdns_schema (version INTEGER NOT NULL)"]),
+        ("after-insert-version-0", &["CREATE TABLE tdns_schema (version INTEGER NOT NULL)", "INSERT INTO tdns_schema (version) VALUES (0)"]),
+        (
+            "after-create-records(version-still-0)",
+            &["CREATE TABLE tdns_schema (version INTEGER NOT NULL)", "INSERT INTO tdns_schema (version) VALUES (0)", "CREATE TABLE records (client_id INTEGER NOT NULL, soa_serial INTEGER NOT NULL, timestamp TEXT NOT NULL, record BLOB NOT NULL)"],
+        ),
+        (
+            "complete(version-1)",
+            &["CREATE TABLE tdns_schema (version INTEGER NOT NULL)", "INSERT INTO tdns_schema (version) VALUES (1)", "CREATE TABLE records (client_id INTEGER NOT NULL, soa_serial INTEGER NOT NULL, timestamp TEXT NOT NULL, record BLOB NOT NULL)"],
+        ),
+        (
+            "future(version-2)",
+            &["CREATE TABLE tdns_schema (version INTEGER NOT NULL)", "INSERT INTO tdns_schema (version) VALUES (2)", "CREATE TABLE records (client_id INTEGER NOT NULL, soa_serial INTEGER NOT NULL, timestamp TEXT NOT NULL, record BLOB NOT NULL)"],
+        ),
+    ];
+    let dir = tmp_root().join("schema");
+    std::fs::create_dir_all(&dir).expect("tmp dir");
+    for (name, sql) in states {
+        l.eval();
+        let path = dir.join("j.db");
+        let _ = std::fs::remove_file(&path);
+        {
+            let c = rusqlite::Connection::open(&path).expect("open");
+            for s in sql {
+                c.execute_batch(s).expect("state sql");
+            }
+        }
+        let case = || json!({"schema_state": name});
+        let judged = !name.starts_with("future");
+        let opened = catch(|| Journal::from_file(&path));
+        let journal = match opened {
+            Err(p) => {
+                if judged {
+                    l.violation(&format!("journal-file-after-a-stop-during-creation:open-panics:{name}"), &format!("Journal::from_file panicked: {} at {}", p.msg, vcore::short_loc(&p.loc)), case);
+                } else {
+                    l.outcome(&format!("obs:schema-state[{name}]:open-panics"));
+                }
+                continue;
+            }
+            Ok(Err(e)) => {
+                l.outcome(&format!("schema-state[{name}]:open-refused"));
+                let _ = e;
+                continue;
+            }
+            Ok(Ok(j)) => j,
+        };
+        // opened: it has to work as a journal
+        let round = catch(|| {
+            let mut h = Handler::new(vupd::in_memory_zone(zone), AxfrPolicy::AllowAll, true, false);
+            h.set_tsig_signers(vec![w.signer.clone()]);
+            w.rt.block_on(h.set_journal(journal));
+            let r = w.rt.block_on(h.persist_to_journal()).map_err(|e| e.to_string());
+            let want = w.rt.block_on(async { Snap::from_map(&*h.records().await) });
+            (r, want)
+        });
+        match round {
+            Err(p) => {
+                if judged {
+                    l.violation(&format!("journal-file-after-a-stop-during-creation:persist-panics:{name}"), &format!("persist_to_journal on the opened journal panicked: {}", p.msg), case);
+                } else {
+                    l.outcome(&format!("obs:schema-state[{name}]:persist-panics"));
+                }
+            }
+            Ok((Err(e), _)) => {
+                if judged {
+                    l.violation(&format!("journal-file-after-a-stop-during-creation:persist-fails:{name}"), &format!("the journal opened but persist_to_journal fails: {e}"), case);
+                } else {
+                    l.outcome(&format!("obs:schema-state[{name}]:persist-fails"));
+                }
+            }
+            Ok((Ok(()), want)) => {
+                let rec = catch(|| {
+                    let j2 = Journal::from_file(&path).map_err(|e| e.to_string())?;
+                    let mut h2 = Handler::new(vupd::empty_zone(), AxfrPolicy::AllowAll, true, false);
+                    w.rt.block_on(h2.recover_with_journal(&j2)).map_err(|e| e.to_string())?;
+                    Ok::<Snap, String>(w.rt.block_on(async { Snap::from_map(&*h2.records().await) }))
+                });
+                match rec {
+                    Ok(Ok(got)) if same_state(&got, &want) => l.outcome(&format!("schema-state[{name}]:opens-and-round-trips")),
+                    other => {
+                        let what = match other {
+                            Err(p) => format!("panic: {}", p.msg),
+                            Ok(Err(e)) => e,
+                            Ok(Ok(got)) => format!("recovered {:?}", got.text()),
+                        };
+                        if judged {
+                            l.violation(&format!("journal-file-after-a-stop-during-creation:round-trip-fails:{name}"), &format!("persisted zone does not recover from the opened journal: {what}"), case);
+                        } else {
+                            l.outcome(&format!("obs:schema-state[{name}]:round-trip-fails"));
+                        }
+                    }
+                }
+            }
+        }
+    }
 }
 
 struct Only {
@@ -891,6 +1137,10 @@ fn run_history(w: &mut Worker, plan: &Plan, zone: usize, hist: &[usize], only: O
             }
         }
     }
+    // audit round: the same journal written in the other ways the schema permits
+    if only.is_none() && hist.len() <= 2 {
+        run_journal_variants(w, plan, zone, hist, &life, &rows, None, l);
+    }
     dig.0
 }
 
@@ -1013,6 +1263,7 @@ fn main() {
         cont_len_long: 1,
         second_crash_max_hist: Some(if thorough { 3 } else { 2 }),
         third_life_max_hist: Some(if thorough { 1 } else { 0 }),
+        variants_every_boundary: thorough,
     };
     let _ = std::fs::remove_dir_all(tmp_root());
 
@@ -1034,9 +1285,24 @@ fn main() {
             cont_len_long: cont.len(),
             second_crash_max_hist: if only.k2.is_some() { Some(usize::MAX) } else { None },
             third_life_max_hist: None,
+            variants_every_boundary: true,
         };
         let zone_i = case["zone"].as_u64().unwrap_or(0) as usize;
-        if case["failing_journal_write_of_last_message"].is_u64() {
+        if case["schema_state"].is_string() {
+            ctx.with_local(|l| run_schema_states(&mut w, &zones[0].1, l));
+        } else if case["dnssec_family"].as_bool() == Some(true) {
+            ctx.with_local(|l| dnssecfam::run(&mut w, &alpha, &zones[0].1, &hist, l));
+        } else if let Some(jv) = case["journal_variant"].as_str() {
+            ctx.with_local(|l| {
+                let store1 = w.stores[0].clone();
+                let mut life = Life::fresh(&w, &store1, &zones[zone_i].1);
+                for i in &hist {
+                    let _ = life.apply(&w, &alpha[*i]);
+                }
+                let rows = life.rows(&w);
+                run_journal_variants(&mut w, &rp, zone_i, &hist, &life, &rows, Some(jv), l);
+            });
+        } else if case["failing_journal_write_of_last_message"].is_u64() {
             // the whole write-failure family of that history
             ctx.with_local(|l| run_write_failures(&mut w, &rp, zone_i, &hist, l));
         } else if case["k3"].is_u64() {
@@ -1122,7 +1388,16 @@ fn main() {
          server goes on, and the process then stops at every later point: the recovered zone must be a boundary state of the LIVE handler that saw \
          the failure and one further message must behave the same on both; (c) thorough: a THIRD lifetime (message on the twice-recovered \
          handler compared with never crashed, every stop inside it recovered a third time) after histories of <= 1 message. Non-trivial = distinct (history, k) with k inside a message's row group or \
-         after >= 1 acknowledged content-changing update (and every second-crash case).",
+         after >= 1 acknowledged content-changing update (and every second-crash case). Audit round: (d) the journal of every history of \
+         <= 2 events, cut at its end (thorough: at every message boundary), written in 11 OTHER ways the schema permits (client ids differ, \
+         timestamps reversed / all equal, soa_serial column 0 / reversed / 2^40, rowids with gaps / starting at 1000, every record re-encoded \
+         by the reference uncompressed in lower / upper case, the AXFR marker with another owner, TTL and class) must recover exactly like the \
+         rows hickory wrote; (e) the journal FILE at every point a stop during its creation leaves it (schema_up's five commits) and with an \
+         unknown schema version: opening may refuse, must not panic, and an opened journal must round-trip a zone; (f) is_dnssec_enabled = \
+         true with the key loaded after the start as the server binary does (load_keys: add key, secure_zone - every start re-signs and \
+         bumps the serial): every history of <= 2 (thorough 3) events over an 8-event alphabet, a restart at every message boundary: restart \
+         succeeds, content without RRSIG/NSEC/DNSKEY equals the live content, serial not below any answered serial, one further event gives \
+         the same rcode, content and serial advance as never stopped.",
     );
     ctx.assume("SQLite's atomic commit: a stop leaves exactly the rows a second connection can see at that moment (a prefix of the row sequence)");
     ctx.assume("the crash-free run of the same implementation is the reference for boundary states and continuations (C12 judges them against RFC 2136)");
@@ -1155,9 +1430,23 @@ fn main() {
             }
         },
     );
+    // audit round: journal files as a stop during their creation leaves them
+    {
+        let mut w = Worker::new(9999);
+        ctx.with_local(|l| run_schema_states(&mut w, &zones[0].1, l));
+    }
+    // audit round: the DNSSEC-enabled journal (is_dnssec_enabled = true, keys loaded after the start)
+    {
+        let dh = dnssecfam::histories(&alpha, if thorough { 3 } else { 2 });
+        ctx.set("dnssec_journal_histories", json!(dh.len()));
+        ctx.set("dnssec_journal_alphabet", json!(dnssecfam::DNSSEC_ALPHABET));
+        ctx.par_run_init(dh.len() as u64, 1, |wi| Worker::new(wi as usize), |i, l, w| {
+            dnssecfam::run(w, &alpha, &zones[0].1, &dh[i as usize], l);
+        });
+    }
     let _ = std::fs::remove_dir_all(tmp_root());
 
-    for class in ["stop:inside-initial-dump", "stop:at-message-boundary", "stop:inside-message-row-group", "continuation-step-agrees", "write-failure:stop-recovered", "write-failure:continuation-step-agrees"] {
+    for class in ["dnssec:boundary-content-recovered", "dnssec:continuation-step-agrees", "journal-variant-recovers-alike:rowids-with-gaps", "journal-variant-recovers-alike:records-reencoded-uncompressed-upper-case", "stop:inside-initial-dump", "stop:at-message-boundary", "stop:inside-message-row-group", "continuation-step-agrees", "write-failure:stop-recovered", "write-failure:continuation-step-agrees"] {
         if ctx.outcome_count(class) == 0 {
             ctx.machinery_failure(&format!("vacuous run: outcome class {class} never exercised"));
         }
